@@ -1,6 +1,7 @@
 package refactor
 
 import (
+	"slices"
 	"strings"
 
 	"github.com/nyaruka/goflow/excellent"
@@ -9,9 +10,23 @@ import (
 // ContextRefRename returns a transformation function that renames context references
 func ContextRefRename(from, to string) func(excellent.Expression) bool {
 	return func(exp excellent.Expression) bool {
+		// inside an anonymous function which has a parameter with the same name, references are to that parameter
+		// and not to the context, so have to be left alone
+		shadowed := make(map[*excellent.ContextReference]bool)
+		exp.Visit(func(e excellent.Expression) {
+			fn, ok := e.(*excellent.AnonFunction)
+			if ok && slices.ContainsFunc(fn.Args, func(arg string) bool { return strings.EqualFold(arg, from) }) {
+				fn.Body.Visit(func(b excellent.Expression) {
+					if ref, ok := b.(*excellent.ContextReference); ok {
+						shadowed[ref] = true
+					}
+				})
+			}
+		})
+
 		changed := false
 		exp.Visit(func(e excellent.Expression) {
-			if ref, ok := e.(*excellent.ContextReference); ok && strings.EqualFold(ref.Name, from) {
+			if ref, ok := e.(*excellent.ContextReference); ok && !shadowed[ref] && strings.EqualFold(ref.Name, from) {
 				ref.Name = to
 				changed = true
 			}
